@@ -109,7 +109,8 @@ def _run(vec, mode):
                 regs[t][pykey(U, key, i)] = regs[s]
             elif op == "assign_num":
                 t, key = args
-                regs[t][pykey(U, key, i)] = 5.0
+                # (a symbolic constant in symbolic mode: a float element would make later 0-d reads float-typed arrays)
+                regs[t][pykey(U, key, i)] = Poly.const(5) if mode == "sym" else 5.0
             elif op == "assign_nd":
                 t, key = args
                 # (a 0-d OBJECT ndarray would be stored as an element by numpy: pass the element)
@@ -130,7 +131,14 @@ def _run(vec, mode):
                 nd[...] = U.gen_values(k, nd_dims, mode, gen_val)
             elif op == "poke":
                 r, k = args
-                regs[r].values[...] = U.gen_values(k, list(regs[r].dims.letters), mode, gen_val)
+                new = U.gen_values(k, list(regs[r].dims.letters), mode, gen_val)
+                if mode == "sym" and new.ndim == 0:
+                    # (numpy takes a 0-d OBJECT array on the right-hand side for a sequence: write the element; when the 0-d
+                    # register holds a bare element there is nothing to write into - the numeric runs cover that path)
+                    if isinstance(regs[r].values, np.ndarray):
+                        regs[r].values[()] = new[()]
+                else:
+                    regs[r].values[...] = new
             elif op == "poke_dims":
                 (r,) = args
                 regs[r].dims.drop(regs[r].dims.letters[0], inplace=True)
